@@ -32,6 +32,21 @@ CHECKS = {
                 text='held on every operation of the generated histories (counts per clause in the evidence)',
                 ref='8/C11', note='trusted base: the 60-line executable specification in monitors/c11_process.py; '
                                   'real ProcessStatus on a real booted Supvisors context'),
+    'C14': dict(engine=ENGINE_L1, technique='runtime monitoring: reference-model monitor on the real '
+                'get_supvisors_instance / strategies / Starter with generated load tables on a real booted context',
+                text='held on every generated choice: the chosen instance is eligible and no eligible instance is '
+                     'strictly better under the strategy key; whole-application placements (SINGLE_INSTANCE / '
+                     'SINGLE_NODE) checked on the start requests really emitted by the Starter', ref='8/C14',
+                note='trusted base: the reference of monitors/c14_placement.py; peers admitted through the real '
+                     'identification / state-setter entry points, no mock of the code under test'),
+    'C15': dict(engine=ENGINE_L1, technique='runtime monitoring: reference-model monitor on the real '
+                'ApplicationStatus + audit-hook (sys.addaudithook) and before/after snapshot monitors around formula '
+                'evaluation',
+                text='held on every generated state vector and formula: state and major/minor failure equal the '
+                     'definition, valid formulas equal an independent evaluator, hostile formulas raise nothing, '
+                     'execute nothing (audit events) and change nothing', ref='8/C15',
+                note='trusted base: the definition and evaluator of monitors/c15_application.py; CPython audit '
+                     'events for compile/exec/import/open/os/subprocess/socket'),
     'C16': dict(engine=ENGINE_L3, technique='runtime monitoring: log / exception / thread-death monitors active in '
                 'cluster executions under the full fault matrix, plus tick-progress assertion',
                 text='held on K executions: no traceback reached a last-resort guard, no non-RPCError left an '
